@@ -58,24 +58,24 @@ type SVertex struct {
 
 // Snap is the harness view of one node's ledger at one instant.
 type Snap struct {
-	Node    int
-	At      int64
-	Live    map[Hash]*SVertex
-	LiveIDs map[string]*SVertex
-	Stored  map[Hash]*SVertex
-	StoredDup []Hash
-	StoredBad []string
-	Funds   map[string]spice.Melange
-	FundsRaw map[string][]byte
-	Index   map[Hash][]byte
-	Leaves  []string
-	Roots   []string
-	Trusted map[string]bool
-	Genesis string
-	Loaded  bool
+	Node               int
+	At                 int64
+	Live               map[Hash]*SVertex
+	LiveIDs            map[string]*SVertex
+	Stored             map[Hash]*SVertex
+	StoredDup          []Hash
+	StoredBad          []string
+	Funds              map[string]spice.Melange
+	FundsRaw           map[string][]byte
+	Index              map[Hash][]byte
+	Leaves             []string
+	Roots              []string
+	Trusted            map[string]bool
+	Genesis            string
+	Loaded             bool
 	Weight, Throughput uint64
-	Parked  []accountant.VerifParked
-	BadIDs  []string
+	Parked             []accountant.VerifParked
+	BadIDs             []string
 }
 
 func idHash(id string) (Hash, bool) {
